@@ -29,9 +29,74 @@ def run_worker(args):
     return json.loads(lines[-1])
 
 
+def packed_bits(desc, t):
+    k = t[0]
+    if k in ("u", "i"):
+        return t[1]
+    if k == "f32":
+        return 32
+    if k == "f64":
+        return 64
+    if k == "enum":
+        e = next(e for e in desc["enums"] if e["name"] == t[1])
+        bits = max(1, max(v for _, v in e["vals"]).bit_length())
+        return 1 << (bits - 1).bit_length()
+    if k == "arr":
+        return t[2] * packed_bits(desc, t[1])
+    if k == "struct":
+        return sum(packed_bits(desc, f["type"]) for f in next(x for x in desc["structs"] if x["name"] == t[1])["fields"])
+    raise ValueError(t)
+
+
 def c17_desc(rng):
-    desc = gen_schema.gen_desc(rng, "fixed", max_fields=4, depth=1, nstructs=rng.randint(1, 4))
+    """Schemas every generator accepts most of the time: frames of at most 64 bits; in the 'c' flavour only the widths the C generator
+    has types for. (An earlier version drew arbitrary fixed-size schemas: dbc then refused 38 of 40 as 'too big', and identical refusals
+    compare equal - the artifacts were hardly compared at all.)"""
+    flavour = rng.choice(["c", "c", "any", "wide"])
+    if flavour == "wide":
+        desc = gen_schema.gen_desc(rng, "fixed", max_fields=4, depth=1, nstructs=rng.randint(1, 4))
+    else:
+        desc = {"enums": [], "structs": [], "impls": []}
+        for i in range(rng.randint(1, 3)):
+            top = rng.choice([1, 2, 3, 5, 7, 8, 15, 16, 200, 255, 256, 70000])
+            vals = sorted({top} | {rng.randint(0, top) for _ in range(rng.randint(0, 3))})
+            rng.shuffle(vals)
+            desc["enums"].append({"name": f"E{i}", "vals": [(f"V{j}", v) for j, v in enumerate(vals)]})
+        enums = [e["name"] for e in desc["enums"]]
+        for i in range(rng.randint(1, 4)):
+            fields, budget = [], 64
+            for j in range(rng.randint(1, 5)):
+                r = rng.random()
+                if r < 0.3:
+                    t = ("enum", rng.choice(enums))
+                elif r < 0.4:
+                    t = ("f32",)
+                elif r < 0.5 and desc["structs"] and flavour == "any":
+                    t = ("struct", rng.choice(desc["structs"])["name"])
+                elif r < 0.6 and flavour == "any":
+                    t = ("arr", (rng.choice("ui"), rng.randint(1, 12)), rng.randint(1, 3))
+                else:
+                    t = (rng.choice("ui"), rng.choice([8, 16, 32]) if flavour == "c" else rng.randint(1, 20))
+                b = packed_bits(desc, t)
+                if b > budget:
+                    continue
+                budget -= b
+                fields.append({"name": f"f{j}", "id": j, "type": t})
+            if not fields:
+                fields = [{"name": "f0", "id": 0, "type": ("u", 8)}]
+            if rng.random() < 0.4:
+                rng.shuffle(fields)
+            desc["structs"].append({"name": f"S{i}", "fields": fields})
+    enums = [e["name"] for e in desc["enums"]]
+    if flavour == "wide":
+        for s in desc["structs"]:
+            if enums and rng.random() < 0.5:
+                rng.choice(s["fields"])["type"] = ("enum", rng.choice(enums))
     gen_schema.add_can_impls(rng, desc, p=0.9)
+    if flavour != "wide":
+        for im in desc["impls"]:
+            if rng.random() < 0.7:
+                im["signals"] = [sb for sb in im["signals"] if not any(k.startswith("mux") for k, _ in sb["fields"]) and sb["name"] != "nosuchfield"]
     for s in desc["structs"]:
         if rng.random() < 0.6:                     # more protocols -> more orders of get_protocols()
             desc["impls"].append({"protocol": rng.choice(["uart", "spi", "eth", "lin"]), "type": s["name"], "name": s["name"] + "X",
@@ -40,19 +105,35 @@ def c17_desc(rng):
     return desc
 
 
+def same_names_other_definitions(rng, desc):
+    """The schema another project might have: every enum, struct, binding and service keeps its name, the definitions differ
+    (enum value ranges, field widths, frame ids)."""
+    import copy
+    other = copy.deepcopy(desc)
+    other["enums"] = [{"name": e["name"], "vals": [(n, v) for n, v in e["vals"] if v != max(x for _, x in e["vals"])]
+                       + [("Vtop", rng.choice([1, 3, 9, 17, 300, 70000]))]} for e in desc["enums"]]
+    for s in other["structs"]:
+        for f in s["fields"]:
+            if f["type"][0] in ("u", "i") and rng.random() < 0.5:
+                f["type"] = (f["type"][0], rng.choice([8, 16, 32]) if f["type"][1] in (8, 16, 32) else rng.randint(1, 20))
+    for im in other["impls"]:
+        im["fields"] = [(k, (v + 1) % 2048 if k == "id" else v) for k, v in im["fields"]]
+    return other
+
+
 def run(chk):
     quick = chk.tier == "quick"
     nsch, nseeds = (6, 6) if quick else (40, 32)
     broken = chk.proof_obligations(["Corr/Gen.vo"])
     chk.coverage["rule"] = (
         "schemas with several protocols and services; every generator (dbc, can_c, cpp, nop) is run in fresh interpreters under different "
-        "PYTHONHASHSEEDs, after unrelated parse/generate calls in the same process, and twice on the same parsed schema object; the {path: contents} "
+        "PYTHONHASHSEEDs, after unrelated parse/generate calls in the same process, after parsing and generating from another schema that declares the same type names with other definitions, and twice on the same parsed schema object; the {path: contents} "
         "maps must be identical apart from the documented '// Generated using fcp ... on ...' stamp line; the C++ generator's file set is compared "
         "in Coq with the model; non-trivial = >= 2 protocols or a service; distinct = (schema, generator, configuration)")
     work = common.scratch_dir("verif_c17_")
     cases, fails, meta = [], [], []
     try:
-        jobs, index = [], []
+        jobs, index, prevs = [], [], {}
         for k in range(nsch):
             desc = c17_desc(chk.rng)
             text = gen_schema.render(desc)
@@ -60,9 +141,15 @@ def run(chk):
             path = f"{work}/s{k}.fcp"
             with open(path, "w") as f:
                 f.write(text)
+            # a schema with the same type names but other definitions (generated names are E0.., S0..), used as the process's earlier work
+            prev = f"{work}/p{k}.fcp"
+            prev_text = gen_schema.render(same_names_other_definitions(chk.rng, desc) if chk.rng.random() < 0.8 else c17_desc(chk.rng))
+            prevs[prev] = prev_text
+            with open(prev, "w") as f:
+                f.write(prev_text)
             protos = [i.protocol for i in fcp.impls]
             for name in ("dbc", "can_c", "cpp", "nop"):
-                confs = [("none", s) for s in chk.rng.sample(range(1, 10000), nseeds)] + [("busy", 7), ("twice", 11), ("busy", 4242)]
+                confs = [("none", s) for s in chk.rng.sample(range(1, 10000), nseeds)] + [("busy", 7), ("twice", 11), ("busy", 4242), ("after:" + prev, 5), ("after:" + prev, 977)]
                 for ci, (hist, seed) in enumerate(confs):
                     jobs.append((path, name, f"{work}/o{k}_{name}_{ci}", hist, seed))
                     index.append((k, text, name, hist, seed, protos, [s.name for s in fcp.services]))
@@ -72,7 +159,8 @@ def run(chk):
         for (k, text, name, hist, seed, protos, services), out in zip(index, outs):
             chk.count((text, name, hist, seed), nontrivial=len(set(protos)) >= 2 or bool(services),
                       sample={"schema": text[:300], "generator": name, "history": hist, "hashseed": seed, "files": sorted(out)[:8]})
-            chk.hist("generator", name); chk.hist("history", hist)
+            chk.hist("generator", name); chk.hist("history", hist.split(":")[0])
+            chk.hist("outcome", f"{name}:" + ("worker-failed" if "__worker_failed__" in out else "raised:" + str(out["__raised__"]) if "__raised__" in out else "files"))
             if "__worker_failed__" in out:
                 fails.append({"kind": "worker-failed", "schema": text, "generator": name, "detail": out["__worker_failed__"]})
                 continue
@@ -89,6 +177,11 @@ def run(chk):
                 fails.append({"kind": "artifacts-differ-between-runs", "schema": text, "generator": name,
                               "first": {"history": ref[key][1], "hashseed": ref[key][2]}, "second": {"history": hist, "hashseed": seed},
                               "files_that_differ": diff[:6]})
+                for side in ("first", "second"):
+                    h = fails[-1][side]["history"]
+                    if h.startswith("after:"):
+                        fails[-1][side]["history"] = "after"
+                        fails[-1]["schema_generated_from_earlier_in_the_process"] = prevs[h[6:]]
     finally:
         shutil.rmtree(work, ignore_errors=True)
     chk.log(f"{chk.coverage['evaluations']} generator runs; implementation-side failures: {len(fails)}")
